@@ -70,6 +70,8 @@ def run(ctx):
         ok = len(rets) == 1
         if ok:
             c = L.cmp_parts(rets[0].get("v"))
+            if c is not None and const_val(c[1]) is not None and const_val(c[2]) is None:
+                c = (c[0], c[2], c[1])      # 1 == fetch_sub(...)
             ok = c is not None and c[0] == "==" and const_val(c[2]) == 1
             if ok:
                 e = strip_cast(c[1])
